@@ -414,13 +414,15 @@ def sec_train_applies_optimizer(ck, algo_name, B=2, S_=2, A_=2):
     coefficients: the optimiser is replaced by an uninterpreted gradient transformation OPT(grads, state, params)"""
     kw = dict(num_envs=1, num_steps=B, value_loss_coefficient=0.5, max_grad_norm=0.5)
     NORM, CLIPV = False, False
+    # non-default, pairwise different configuration values: a step that ignores or swaps a configured value is refuted
     if algo_name == "ppo":
-        algo = PPO(num_batches=1, clip_coefficient=0.125, clip_value_loss=True, entropy_loss_coefficient=0.25, normalize_advantages=False, **kw)
-        CLIPV = True
+        algo = PPO(num_batches=1, clip_coefficient=0.125, clip_value_loss=True, entropy_loss_coefficient=0.25, normalize_advantages=True, **kw)
+        NORM, CLIPV = True, True
     elif algo_name == "a2c":
         algo = A2C(entropy_loss_coefficient=0.25, normalize_advantages=False, **kw)
     else:
-        algo = REINFORCE(normalize_advantages=False, **kw)
+        algo = REINFORCE(normalize_advantages=True, **kw)
+        NORM = True
     opt = uf_optimizer()
     algo = eqx.tree_at(lambda a: a.optimizer, algo, opt)
     pol = TabACPolicy(S_, A_)
@@ -456,7 +458,7 @@ def sec_train_applies_optimizer(ck, algo_name, B=2, S_=2, A_=2):
 
 def sec_optimizer(ck, algo_name):
     """the chain built by the constructor: clip_by_global_norm(max_grad_norm) then adam"""
-    kw = dict(num_envs=1, num_steps=2, max_grad_norm=0.5)
+    kw = dict(num_envs=1, num_steps=2, max_grad_norm=0.25)   # not the default 0.5: the configured value must be the one used
     algo = {"ppo": lambda: PPO(num_batches=1, **kw), "a2c": lambda: A2C(**kw), "reinforce": lambda: REINFORCE(**kw)}[algo_name]()
     mx = Fraction(float(np.float32(algo.max_grad_norm)))
     params = {"b": jnp.zeros(()), "w": jnp.zeros(2)}
@@ -480,7 +482,13 @@ def sec_optimizer(ck, algo_name):
     S = tr.symbols(it, given=zero)                                  # first update from a zero optimiser state
     out = tr.run(it, S)
     g = flat(S["g_b"], S["g_w"])
-    hp = {k: S[f"st_1_hyperparams_{k}"][()] for k in ("b1", "b2", "eps", "eps_root", "learning_rate")}
+    def hpname(k):
+        # wherever the adam hyper-parameters live in the optimiser state (robust to a different chain layout)
+        c = [n for n in tr.in_names if n.startswith("st_") and n.endswith("hyperparams_" + k)]
+        if len(c) != 1:
+            raise RuntimeError(f"optimiser state has no unique adam hyper-parameter {k}: {c}")
+        return c[0]
+    hp = {k: S[hpname(k)][()] for k in ("b1", "b2", "eps", "eps_root", "learning_rate")}
     norm = it.o.unary("sqrt", sum(x * x for x in g))
     ghat = [z3.If(norm <= mx, x, x * mx / norm) for x in g]
     u = flat(out["u_b"], out["u_w"])
@@ -492,7 +500,7 @@ def sec_optimizer(ck, algo_name):
         rpl = Replay(tr, S, res)
         real = rpl.run()
         gv = np.concatenate([rpl.get("g_b").reshape(-1), rpl.get("g_w").reshape(-1)])
-        h = {k: float(rpl.get(f"st_1_hyperparams_{k}")) for k in hp}
+        h = {k: float(rpl.get(hpname(k))) for k in hp}
         n = float(np.sqrt(np.sum(gv ** 2)))
         gh = gv if n <= float(mx) else gv * float(mx) / n
         want = -h["learning_rate"] * gh / (np.sqrt(gh ** 2 + h["eps_root"]) + h["eps"])
@@ -530,13 +538,15 @@ def sec_optimizer(ck, algo_name):
         rb = a.run()
         bad = any(differs(ra[k], rb[k], rtol=5e-3, atol=1e-4) for k in keys)
         return bad, {"function": tr.label, "inputs": a.inputs_json(), "update_on_g": {k: ra[k].tolist() for k in keys}, "update_on_clipped_g": {k: rb[k].tolist() for k in keys}}
-    ck.prove(f"opt.clip_then_adam.depends_on_clipped_gradient_only@{algo_name}", [], conj([eq_arr(o1[k], o2[k]) for k in keys]), replay=rp_inv, nonlinear=True)
+    hp1 = {k: S1[hpname(k)][()] for k in hp}
+    asm1 = [hp1["b1"] >= 0, hp1["b1"] < 1, hp1["b2"] >= 0, hp1["b2"] < 1, hp1["eps"] > 0, hp1["eps_root"] >= 0, hp1["learning_rate"] > 0]
+    ck.prove(f"opt.clip_then_adam.depends_on_clipped_gradient_only@{algo_name}", asm1, conj([eq_arr(o1[k], o2[k]) for k in keys]), replay=rp_inv, nonlinear=True)
     scaled = dict(S1)
     k_ = z3.Real("scale_k")
     scaled["g_b"] = np.array(g1[0] * k_, dtype=object).reshape(())
     scaled["g_w"] = np.array([x * k_ for x in g1[1:]], dtype=object)
     o3 = tr.run(it2, scaled)
-    ck.control(f"control.opt_scale_invariant_below_max_norm@{algo_name}", [k_ > 1], conj([eq_arr(o1[k], o3[k]) for k in keys]), nonlinear=True)
+    ck.control(f"control.opt_scale_invariant_below_max_norm@{algo_name}", asm1 + [k_ > 1], conj([eq_arr(o1[k], o3[k]) for k in keys]), nonlinear=True)
 
 
 # ----------------------------------------------------------------------------- main
@@ -553,7 +563,9 @@ def main():
             "exp, sqrt, pow are uninterpreted with axioms exp>0, exp(0)=1, sqrt(x)>=0 and sqrt(x)^2=x for x>=0, pow(x,1)=x")
     ck.out("float32 rounding (identities are over the reals)",
            "the approximate-KL estimator itself (the statement only fixes its value 0 on on-policy data)",
-           "the constant in front of the squared value error (checked up to one positive constant, independent of inputs and batch size)",
+           "the constant in front of the squared value error (B=1: proportionality + sign as a two-instance query; B>1: the batch value is the mean of the implementation's own "
+           "single-sample values, so the constant is independent of inputs and batch size)",
+           "the regulariser added to the advantage standard deviation is identified from the IR and only required to be a constant in (0, 1e-6]",
            "adam beyond its first update from a zero state; learning-rate schedules",
            "E[.] is the minibatch mean; how minibatches are formed is C09")
     with ck.section("regulariser"):
